@@ -17,7 +17,7 @@ Inductive dgram :=
 
 Definition status_eqb (a b : status) : bool :=
   match a, b with
-  | Listening, Listening | Returned, Returned | NotListening, NotListening => true
+  | Listening, Listening | Returned, Returned | NotListening, NotListening | Killed, Killed => true
   | _, _ => false
   end.
 
@@ -32,23 +32,36 @@ Record case := {
   k_eid : rl N;
   k_version : rl N;
   k_desc : option (rl N);
-  k_ifaces : list (str * N);
+  k_ifaces : list (str * N);          (* the interface list given to UDPListener when it is constructed directly *)
+  k_startup : option (list cfg_iface * list (nat * bool));
+                                      (* Some (configured interfaces, start-up events): the responder is created by
+                                         Server.run, k_ifaces and k_bcast are not used *)
   k_bcast : bool;
   k_dgrams : list dgram;
   (* observed on the implementation *)
+  o_handed : option (list (str * N)); (* Server.run: the list handed to UDPListener, None = no responder created *)
   o_enabled : bool;
   o_desc : rl N;                      (* self.description after __init__ *)
   o_fw : rl N;                        (* self.firmware *)
   o_ports : list N;                   (* self.ports *)
   o_payloads : list (rl byte);        (* distinct datagrams sent *)
   o_sends : list (dest * nat);        (* destination, index into o_payloads *)
-  o_status : status;                  (* how run() ended: Returned or NotListening (no exception can escape) *)
+  o_status : status;                  (* how run() ended: Returned, NotListening, or Killed by an exception *)
   o_consumed : nat;                   (* number of recvfrom calls *)
 }.
 
+(* interface list and broadcast flag the constructor gets: directly from the case, or from the model of Server.run
+   (which passes no startup_broadcast: the default True) *)
+Definition listener_args (k : case) : option (list (str * N) * bool) :=
+  match k_startup k with
+  | None => Some (k_ifaces k, k_bcast k)
+  | Some (conf, evs) => option_map (fun l => (l, true)) (handed conf evs)
+  end.
+
 Definition mk_cfg (k : case) : cfg :=
+  let a := match listener_args k with Some a => a | None => ([], false) end in
   {| c_eid := xs (k_eid k); c_version := xs (k_version k); c_desc := option_map xs (k_desc k);
-     c_ifaces := k_ifaces k; c_bcast := k_bcast k |}.
+     c_ifaces := fst a; c_bcast := snd a |}.
 
 Definition mk_input (d : dgram) : input :=
   match d with DG data p a => IRecv (xb data) p a | DErr => IError end.
@@ -71,7 +84,14 @@ Definition sends_ok (k : case) (outs : list (dest * bytes)) : bool :=
               dest_eqb (fst m) (fst o) && list_eqb N.eqb (snd m) (nth (snd o) pl [256%N]))
            outs (o_sends k).
 
-Definition check_case (k : case) : bool :=
+(* the law assumed of json.loads (Model.v) holds for what the harness saw CPython do with every datagram *)
+Definition law_ok (k : case) : bool :=
+  forallb (fun d => match d with
+                    | DG data p _ => loads_law_b (N.to_nat json_depth_limit) (received (xb data)) p
+                    | DErr => true
+                    end) (k_dgrams k).
+
+Definition check_listener (k : case) : bool :=
   let l := model_init k in
   let r := model_run k in
   Bool.eqb (l_enabled l) (o_enabled k)
@@ -82,9 +102,21 @@ Definition check_case (k : case) : bool :=
   && status_eqb (st r) (o_status k)
   && Nat.eqb (consumed r) (o_consumed k).
 
+Definition check_case (k : case) : bool :=
+  law_ok k &&
+  match k_startup k with
+  | None => check_listener k
+  | Some _ =>
+    match listener_args k, o_handed k with
+    | None, None => match o_sends k with [] => true | _ => false end
+    | Some (ifs, _), Some ifs' => list_eqb iface_eqb ifs ifs' && check_listener k
+    | _, _ => false
+    end
+  end.
+
 (* for diagnosis in replay files *)
 Definition model_result (k : case) :=
   let l := model_init k in
   let r := model_run k in
-  (l_enabled l, length (l_desc l), l_ports l, st r, consumed r,
+  (listener_args k, l_enabled l, length (l_desc l), l_ports l, st r, consumed r,
    map (fun m => (fst m, length (snd m))) (outs r)).
